@@ -101,8 +101,11 @@ def bfs(system, ctx, depth, deadline=None, max_states=None, label=None, prefix=N
                 stats['determinism_checks'] += 1
                 if canon(obj2) != key or freeze(obs2) != freeze(obs):
                     raise RuntimeError("replay divergence (harness nondeterminism) at history %r" % (h2,))
-            system.judge(ctx, hist, op, obj, obs, pre)
+            verdict = system.judge(ctx, hist, op, obj, obs, pre)
             ctx.state((label, key))
+            if verdict is False:
+                stats['pruned'] = stats.get('pruned', 0) + 1      # do not explore beyond a violating state
+                continue
             if key not in seen:
                 seen.add(key)
                 stats['states'] += 1
